@@ -229,6 +229,21 @@ func c05Functions(c *Ctx) {
 		prog{"func f(a, b) {\n  return [a, b]\n}\nprobe(\"positional\", f(1, 2))\n", []string{"positional=[1,2]"}},
 		prog{"func f() {\n}\nprobe(\"no-return-value\", f())\nfunc g() {\n  return\n}\nprobe(\"empty-return\", g())\n", []string{"no-return-value=null", "empty-return=null"}},
 	)
+	// parameters are fresh locals even when the definition scope or the global
+	// scope holds a variable of the same name: passed, defaulted and missing
+	// parameters, read and written by the body (C05-g)
+	for _, call := range []struct{ args, q string }{{"1", "6"}, {"1, 2", "3"}} {
+		lbl := fmt.Sprintf("param-shadows-global#%d", strings.Count(call.args, ",")+1)
+		ps = append(ps, prog{fmt.Sprintf("q := 7\nfunc f(p, q=5) {\n  q := q + 1\n  return [p, q]\n}\nr := f(%s)\nprobe(\"%s\", [r, q])\n", call.args, lbl),
+			[]string{fmt.Sprintf("%s=[[1,%s],7]", lbl, call.q)}})
+		lbl = fmt.Sprintf("param-shadows-enclosing#%d", strings.Count(call.args, ",")+1)
+		ps = append(ps, prog{fmt.Sprintf("func outer() {\n  let q := 7\n  func inner(p, q=5) {\n    q := q + 1\n    return [p, q]\n  }\n  let r := inner(%s)\n  return [r, q]\n}\nprobe(\"%s\", outer())\n", call.args, lbl),
+			[]string{fmt.Sprintf("%s=[[1,%s],7]", lbl, call.q)}})
+	}
+	ps = append(ps,
+		prog{"n := 3\nfunc f(n=1) {\n  return n\n}\na := f()\nb := f()\nprobe(\"default-param-read-only\", [a, b, n])\n", []string{"default-param-read-only=[1,1,3]"}},
+		prog{"p := 7\nfunc f(p) {\n  p := 9\n  return p\n}\nr := f()\nprobe(\"missing-param-shadows-global\", [r, p])\n", []string{"missing-param-shadows-global=[9,7]"}},
+	)
 	for _, p := range ps {
 		if c.Mine() {
 			c05Compare(c, "functions", p.src, p.want)
